@@ -4,7 +4,9 @@ from vf.core import *
 from props.methods import *
 b=Build('t3')
 names=sys.argv[1:] or ["md5crypt"]
-qs=[method_query(BY_NAME[n],"m-"+n,timeout=600) for n in names]
+qs=[method_query(BY_NAME[n],"m-"+n,timeout=int(__import__('os').environ.get('TO','300'))) for n in names]
+for q in qs: q.flags=["--verbosity","9"]
 rs=run_queries(b,qs)
 for r in rs:
+    print(r.name,r.status,r.detail[:300])
     for f in r.failures[:4]: print(r.name,f['property'],f['description'],f['location'].get('line'),{k:v for k,v in f['inputs'].items()})
